@@ -81,6 +81,10 @@ impl Function {
     }
 
     pub(crate) fn exec(&self, interpreter: &mut Interpreter) -> Result<Variable, ExecError> {
+        #[cfg(simplesl_verif)]
+        if let Some(result) = crate::verif::hook_call(self, interpreter) {
+            return result;
+        }
         let body = match &self.body {
             Body::Lang(body) => body,
             Body::Native(body) => return (body)(interpreter),
